@@ -37,16 +37,22 @@ func models(c *vf.Ctx) []*chain.Model {
 			if a.name == "v2contracts" && sp.Allow > 100 {
 				continue
 			}
-			m := &chain.Model{Name: a.name, Spec: sp, Opt: opt, Menu: a.menu,
-				H: vf.Pick[uint64](c, 8, 11), D: vf.Pick(c, 2, 3), K: vf.Pick(c, 2, 2), R: vf.Pick(c, 1, 2)}
-			if a.name == "v1contracts" || a.name == "v2contracts" {
-				m.H = vf.Pick[uint64](c, 9, 12)
+			variants := [][3]int{{2, 2, 1}} // (D, K, R)
+			if !c.Quick() {
+				variants = [][3]int{{2, 2, 2}, {3, 1, 2}}
 			}
-			if sp.Name == "mixed" {
-				m.SkipStart = 3 // start just below the allow height so both versions are explored
-				m.H += 3
+			for _, v := range variants {
+				m := &chain.Model{Name: a.name, Spec: sp, Opt: opt, Menu: a.menu,
+					H: vf.Pick[uint64](c, 8, 10), D: v[0], K: v[1], R: v[2]}
+				if a.name == "v1contracts" || a.name == "v2contracts" {
+					m.H = vf.Pick[uint64](c, 9, 11)
+				}
+				if sp.Name == "mixed" {
+					m.SkipStart = 3 // start just below the allow height so both versions are explored
+					m.H += 3
+				}
+				ms = append(ms, m)
 			}
-			ms = append(ms, m)
 		}
 	}
 	return ms
